@@ -1023,6 +1023,11 @@ class Trace:
                         self.filtered_pass = True
                         fl = [("loopk", inner[1], kinds)]
                         E = mk_field(("variant", inner, "Some", 1), "0", "")
+                        # a `map` / `copied` stage changes what the loop body sees: the interpreter hands out the mapped
+                        # element expressed over the underlying table entry (Adaptors), and so must this rule
+                        ae = adapted_elem(self.closures, inner)
+                        if ae is not None and ae[2]:
+                            E = ae[0]
                         dst = eng.fn.blocks[inner[1]]["term"]["dst"]
                         shape = elem_shape(eng.fn.locals[dst["l"]]["ty"]["s"]) if not dst["p"] else None
                         if shape is not None and kinds:
